@@ -137,40 +137,60 @@ def check_n2(ctx) -> None:
                    and 'SystemExit' in norm(h.type) or (h.type is None) or
                    (h.type is not None and 'BaseException' in norm(h.type))]
     where = f'{mm.rel}:{tr.lineno if tr else 1}'
-    # rc discipline
-    rc_assigns = [(st, st.value) for st in ast.walk(mm.tree) if isinstance(st, ast.Assign) and norm(st.targets[0]) == 'rc']
-    exits = [c for c in ast.walk(mm.tree) if isinstance(c, ast.Call) and dotted_name(c.func) in ('sys.exit', 'exit')]
+    # status discipline: the status variable is what the module finally exits with (`sys.exit(rc)` / `raise SystemExit(rc)`)
+    exits = [c for c in ast.walk(mm.tree) if isinstance(c, ast.Call) and dotted_name(c.func) in ('sys.exit', 'exit', 'os._exit')]
+    raises = [r.exc for r in ast.walk(mm.tree) if isinstance(r, ast.Raise) and isinstance(r.exc, ast.Call) and dotted_name(r.exc.func) == 'SystemExit']
+    finals = [c for c in exits + raises if any(c is x for st in mm.tree.body for x in ast.walk(st) if not isinstance(st, (ast.FunctionDef, ast.ClassDef)))]
+    names = {c.args[0].id for c in finals if len(c.args) == 1 and isinstance(c.args[0], ast.Name)}
+    RC = next(iter(names)) if len(names) == 1 else None
+    for c in finals:
+        if not c.args or isinstance(c.args[0], ast.Constant):
+            ctx.bad('N2', '__main__/exits-with-rc', f'{mm.rel}:{c.lineno}', f'the module ends with the constant status `{norm(c)}`, whatever the '
+                                                                          f'simulation did')
+
+    def _guarded_nonzero(st: ast.Assign, scope: ast.AST) -> bool:
+        """`rc = X` under a guard that contains `isinstance(X, int) and X != 0`."""
+        vt = norm(st.value)
+        lits = []
+        for t, pol in guards_of(st, scope):
+            if pol:
+                lits.extend([norm(x) for x in (t.values if isinstance(t, ast.BoolOp) and isinstance(t.op, ast.And) else [t])])
+        return (f'{vt} != 0' in lits or f'0 != {vt}' in lits) and f'isinstance({vt}, int)' in lits
+
+    rc_assigns = [(st, st.value) for st in ast.walk(mm.tree) if isinstance(st, ast.Assign) and RC is not None and norm(st.targets[0]) == RC]
     if rc_assigns:
-        ctx.require(tr is not None, '__main__: rc variable present but simulation call not inside try (idiom changed)')
+        ctx.require(tr is not None, '__main__: status variable present but simulation call not inside try (idiom changed)')
         init = [v for st, v in rc_assigns if st in mm.tree.body and st.lineno < tr.lineno]
         ctx.check(bool(init) and all(_nonzero_expr(v) for v in init), 'N2', '__main__/rc-initially-nonzero', where,
-                  'rc is not initialised to a non-zero status before the simulation runs: an exception path that '
-                  'reaches sys.exit(rc) would report success')
+                  f'{RC} is not initialised to a non-zero status before the simulation runs: an exception path that '
+                  f'reaches the final exit would report success')
         zero = [st for st, v in rc_assigns if _nonzero_expr(v) is False and isinstance(v, ast.Constant)]
         for st in zero:
-            in_body_after = any(st is s for s in tr.body) and st.lineno > call.lineno
+            in_body_after = (any(st is s for s in tr.body) and st.lineno > call.lineno) or any(st is s for s in tr.orelse)
             ctx.check(in_body_after, 'N2', '__main__/rc-zero-only-after-main', f'{mm.rel}:{st.lineno}',
-                      '`rc = 0` is not placed in the try body after geophires.main() returns')
-        raises_rc = [r for r in ast.walk(mm.tree) if isinstance(r, ast.Raise) and r.exc is not None and norm(r.exc) in ('SystemExit(rc)',)]
-        ctx.check(any(norm(c) in ('sys.exit(rc)', 'exit(rc)', 'os._exit(rc)') for c in exits) or bool(raises_rc), 'N2', '__main__/exits-with-rc', where,
-                  'the module does not end with sys.exit(rc)')
+                      f'`{RC} = 0` is not placed in the try body after geophires.main() returns (or in the try\'s else)')
+        ctx.ok('N2', '__main__/exits-with-rc', where, f'the module ends with {norm(finals[0])}')
         for h in tr.handlers:
             for st in ast.walk(h):
-                if isinstance(st, ast.Assign) and norm(st.targets[0]) == 'rc':
+                if isinstance(st, ast.Assign) and norm(st.targets[0]) == RC:
                     nz = _nonzero_expr(st.value)
+                    if not nz and _guarded_nonzero(st, h):
+                        nz = True
                     if nz is None:
                         raise AnalysisError(f'__main__: cannot decide whether `{norm(st)}` is non-zero')
                     ctx.check(nz, 'N2', '__main__/handler-status-nonzero', f'{mm.rel}:{st.lineno}',
                               f'`{norm(st)}` can set a zero status on a failing path')
             if handler_catches(h, ('Exception', 'ValueError', 'RuntimeError')) and not handler_reraises(h):
-                sets = any(isinstance(st, ast.Assign) and norm(st.targets[0]) == 'rc' for st in ast.walk(h))
+                sets = any(isinstance(st, ast.Assign) and norm(st.targets[0]) == RC for st in ast.walk(h))
                 ctx.check(sets, 'N2', '__main__/handler-swallows-failure', f'{mm.rel}:{h.lineno}',
                           'a handler around the simulation swallows the failure without setting a non-zero status')
     # SystemExit interception vs reachable bare exits
-    intercepts = tr is not None and any(
-        (h.type is None or any(x in norm(h.type) for x in ('SystemExit', 'BaseException'))) and
-        any(isinstance(st, ast.Assign) and norm(st.targets[0]) == 'rc' and _nonzero_expr(st.value) for st in ast.walk(h))
-        for h in tr.handlers)
+    catching = [h for h in tr.handlers if h.type is None or any(x in norm(h.type) for x in ('SystemExit', 'BaseException'))] if tr is not None else []
+    if catching and RC is None:
+        raise AnalysisError('__main__: SystemExit is intercepted but the status the module finally exits with is not a single variable '
+                            '(idiom changed); cannot decide the exit status of intercepted exits')
+    intercepts = any(any(isinstance(st, ast.Assign) and norm(st.targets[0]) == RC and (_nonzero_expr(st.value) or _guarded_nonzero(st, h))
+                         for st in ast.walk(h)) for h in catching)
     reach = cg.reachable([main])
     bare = []
     for f in reach.values():
@@ -209,22 +229,23 @@ def check_n3(ctx) -> None:
     repo = ctx.repo
     mm = repo.module('geophires_x/__main__.py')
     # every store to sys.argv[1] / sys.argv[2] in __main__ is an absolute path
+    from gxstat.inline import inline_sequential
     n = 0
     for st in ast.walk(mm.tree):
         if isinstance(st, ast.Assign) and isinstance(st.targets[0], ast.Subscript) and norm(st.targets[0].value) == 'sys.argv':
             idx = norm(st.targets[0].slice)
             n += 1
-            v = norm(st.value)
+            v = norm(inline_sequential(st.value, st))
             ctx.check(v.endswith('.absolute()') or v.endswith('.resolve()') or 'os.path.abspath(' in v, 'N3',
                       f'__main__/argv[{idx}]-absolute', f'{mm.rel}:{st.lineno}',
                       f'sys.argv[{idx}] = {v}: not made absolute, but GEOPHIRESv3.main changes the working directory before '
                       f'the three consumers open it')
     ctx.floor('N3', n, 3, 'argv stores in __main__')
-    # default output name is the documented HDR.out in the caller's cwd
-    dflt = [st for st in ast.walk(mm.tree) if isinstance(st, ast.Assign) and norm(st.targets[0]) == 'sys.argv[2]'
-            and 'HDR.out' in norm(st.value)]
-    ctx.check(len(dflt) == 1 and 'stash_cwd' in norm(dflt[0].value), 'N3', '__main__/default-output-in-caller-cwd',
-              f'{mm.rel}:{dflt[0].lineno if dflt else 1}', 'the default report path is not HDR.out in the caller\'s directory')
+    # default output name is the documented HDR.out in the caller's cwd (captured before the simulation changes it)
+    dflt = [(st, norm(inline_sequential(st.value, st))) for st in ast.walk(mm.tree) if isinstance(st, ast.Assign) and norm(st.targets[0]) == 'sys.argv[2]']
+    dflt = [(st, v) for st, v in dflt if 'HDR.out' in v]
+    ctx.check(len(dflt) == 1 and any(x in dflt[0][1] for x in ('Path.cwd()', 'os.getcwd()')), 'N3', '__main__/default-output-in-caller-cwd',
+              f'{mm.rel}:{dflt[0][0].lineno if dflt else 1}', 'the default report path is not HDR.out in the caller\'s directory')
     # consumers: Model.__init__ uses argv[2] for the report, main uses argv[2] for json + echo
     main = repo.function('geophires_x/GEOPHIRESv3.py', 'main')
     js = [st for st in ast.walk(main.node) if isinstance(st, ast.Assign) and norm(st.targets[0]) == 'json_outputfile']
@@ -235,10 +256,21 @@ def check_n3(ctx) -> None:
               'GEOPHIRESv3.main/json-path-from-report-path', f'{main.module.rel}:{derived[0].lineno if derived else main.node.lineno}',
               'the JSON path is not derived from the report path (same directory, same stem)')
     model_init = repo.method('Model', '__init__', 'geophires_x/Model.py')
-    uses = [st for st in ast.walk(model_init.node) if isinstance(st, ast.Assign) and norm(st.targets[0]) == 'output_file']
-    ctx.check(any(norm(st.value) == 'sys.argv[2]' for st in uses) and any(norm(st.value) == "'HDR.out'" for st in uses),
+    # the report path variable is what the output objects are constructed with (`Outputs(self, output_file=<var>)`)
+    from gxstat.inline import module_consts, substitute
+    pvars = {k.value.id for c in calls_in(model_init.node) for k in c.keywords if k.arg == 'output_file' and isinstance(k.value, ast.Name)}
+    ctx.require(len(pvars) == 1, f'Model.__init__: report path variable handed to the output objects not found ({sorted(pvars)})')
+    pv = next(iter(pvars))
+    consts = module_consts(model_init.module.tree)
+    vals: List[str] = []
+    for st in ast.walk(model_init.node):
+        if isinstance(st, (ast.Assign, ast.AnnAssign)) and norm(st.targets[0] if isinstance(st, ast.Assign) else st.target) == pv and st.value is not None:
+            v = substitute(st.value, consts)
+            for alt in ([v.body, v.orelse] if isinstance(v, ast.IfExp) else [v]):
+                vals.append(norm(alt))
+    ctx.check('sys.argv[2]' in vals and "'HDR.out'" in vals,
               'N3', 'Model.__init__/report-path-from-argv2', model_init.where,
-              'Model does not take the report path from argv[2] (default HDR.out)')
+              f'Model does not take the report path from argv[2] (default HDR.out): `{pv}` is one of {vals}')
     client = repo.method('GeophiresXClient', 'get_geophires_result')
     # client: get_output_file_path is absolute (tempdir)
     gip = repo.cls('GeophiresInputParameters')
